@@ -143,7 +143,7 @@ def plan(prop, tier):
                     Job("mutations-asan", "c-asan", ["txt", "--mode", "mutations", "--inputs", "1"] + pa, NPROC),
                     Job("longnames-asan", "c-asan", ["txt", "--mode", "longnames"] + pa, 1),
                     Job("def-asan", "c-asan", ["def", "--sample", "53" if q else "7", "--prop", "C12"], NPROC),
-                    Job("hist-asan", "c-asan", ["hist", "--slots", "2", "--full", "4", "--bfs", "4" if q else "6", "--props", "C12,C14,C15,C13", "--crash-prop", "C12"], 1),
+                    Job("hist-asan", "c-asan", ["hist", "--slots", "2", "--full", "4", "--bfs", "4" if q else "5", "--props", "C12,C14,C15,C13", "--crash-prop", "C12"], 1),
                     gram("C12", "gram-q-asan", "c-asan", "q", 3 if q else 4, ["--tm", "u0" if q else "vary", "--fresh", "--la", "1,2", "--one", "0,1", "--cost", "0,1", "--rec", "1", "--ams", "0,2"]),
                     gram("C12", "gram-qe-asan", "c-asan", "qe", 3 if q else 4, ["--fresh", "--la", "1", "--one", "0,1", "--cost", "0,1", "--rec", "1", "--match", "1,3", "--ams", "0"]),
                     gram("C12", "gram-mini-asan", "c-asan", "mini", 4, ["--tm", "vary", "--cms", "3", "--fresh", "--la", "0,1,2", "--one", "0,1", "--cost", "0,1", "--rec", "1", "--ams", "0,2"]),
